@@ -128,11 +128,12 @@ def run_scenario(loop_name, scn, max_waits=400):
         except BaseException as ex:  # noqa: BLE001
             outcome["outcome"] = "raise"
             outcome["exc"] = type(ex).__name__
-            if scn.get("rerun") and isinstance(ex, loops.VfError) and loop_name in ("select", "asyncio", "zmq", "tornado"):
+            if scn.get("rerun") and isinstance(ex, loops.VfError) and loop_name in ("select", "asyncio", "zmq", "tornado") and state["nextid"] <= MAXA:
                 # the same loop object is run again: the error of the first run must not come back
                 env.log(t="run_end", outcome="raise", exc="VfError")
                 env.log(t="rerun")
-                reg_alarm(state["nextid"] if state["nextid"] <= MAXA else MAXA, 10, "exit")
+                reg_alarm(state["nextid"], 10, "exit")      # an identifier of its own (callbacks of the second run may add alarms too)
+                state["nextid"] += 1
                 outcome = {"t": "run_end", "outcome": "return", "exc": ""}
                 try:
                     with contextlib.redirect_stdout(io.StringIO()):
